@@ -67,6 +67,22 @@ def check_new(S):
                     and ty_s(e['func']['qself']['ty']) == 'Self':
                 ok = True
     if ok:
+        # `new()` calls `<Self as Default>::default()`: its impl must carry the generics and where-clause of the Default impl itself
+        # (with the automatic / custom `T: Default` predicates), otherwise it does not type-check for generic types
+        from .c12 import hole_of_generics_list, where_hole
+        from ..tmpl import generics_source
+        prim = S.impl_of('::core::default::Default')
+        if len(prim) == 1:
+            psite, pimpl = prim[0]
+            for getter, what in ((hole_of_generics_list, 'generic parameters'), (where_hole, 'where-clause')):
+                a, b = getter(pimpl['generics']), getter(impl['generics'])
+                ta = generics_source(psite.tmpl.hole_term(a)) if a else None
+                tb = generics_source(site.tmpl.hole_term(b)) if b else None
+                if ta != tb:
+                    S.bad('SUM-DEFAULT', 'new-generics', 'the impl carrying `new()` does not use the same %s as the `impl Default` it calls (%s vs %s): `<Self as Default>::default()` needs the predicates of that impl' % (
+                        what, term_s(tb, 60), term_s(ta, 60)), site)
+                    return False
+    if ok:
         S.ok('SUM-DEFAULT', 'new', {'body': '<Self as ::core::default::Default>::default()'})
     else:
         S.bad('SUM-DEFAULT', 'new-body', '`new` is not `pub fn new() -> Self { <Self as ::core::default::Default>::default() }`', site)
@@ -626,4 +642,9 @@ def run(cx, tier='quick'):
     from .c13 import include_own_parsers as _iop
     from ..facts import Facts as _Fp
     _iop(cx, _Fp(cx), rep, ['::default::'])
+    # the impl headers of this trait's own templates (generics, where-clause, ::core trait path): HDR
+    from .c12 import check_headers as _chk_hdr
+    _chk_hdr(cx, rep, ['::default::'])
+    from .own import include_generic_rules as _igr
+    _igr(cx, rep, ['::default::'])
     return rep
